@@ -591,8 +591,8 @@ def gen_config():
     except Exception:
         flags["tupleRecursive"] = False
     try:
-        flags["keyUtf8"] = binning.deterministic_proba("\u00e9\u4e2d") == int(
-            hashlib.md5("\u00e9\u4e2d".encode("utf-8")).hexdigest()[:8], 16) / 2 ** 32
+        flags["keyUtf8"] = all(binning.deterministic_proba(k) == int(hashlib.md5(k.encode("utf-8")).hexdigest()[:8], 16) / 2 ** 32
+                               for k in ("\u00e9\u4e2d", "\u00e9", "Jos\u00e9", "\u00ff\u0080", "\u00b5", "a", "", "\U0001d400x", "\ufeff", "x" * 70))
     except Exception:
         flags["keyUtf8"] = False
 
